@@ -440,7 +440,7 @@ def run_case(cb, agg, fact, weights, ignore, xdt, st, formats=FORMATS, fact_form
             with np.errstate(invalid="ignore"):
                 close = bool(np.all(np.abs(a[0][keep] - b[0][keep]) <= tol))
             MON.check(qual + "/agree-ccube-xcube-values", close, lambda: "values: ccube %r, xcube %r (tolerance %.3g)" % (a[0].tolist(), b[0].tolist(), tol),
-                      case, c2)
+                      {"case": case}, c2)
 
 
 def do_cube_A(spec, sc, st, jobno):
